@@ -1,5 +1,11 @@
 package chk
 
+import (
+	"fmt"
+
+	"golang.org/x/tools/go/ssa"
+)
+
 func init() { Registry["C16"] = checkC16 }
 
 // C16 — untrusted elementary-stream bytes never crash or hang the codec helpers (structural part).
@@ -7,7 +13,7 @@ func checkC16(c *Ctx, r *Report) {
 	r.Explanation = "Over the functions reachable from the exported helpers of avc, hevc, sei, aac, av1 that take raw bytes or readers (and String/Payload/Size of their message types): " +
 		"R1 no explicit panic reachable; G1 allocations sized by wide untrusted values (Exp-Golomb counts, 32-bit lengths) are guarded by a comparison; " +
 		"G2 every cycle of every data-driven loop passes an error test of the sticky-error bit reader or a bounded counter test. " +
-		"G3 a slice made in a function and indexed there by a counter is indexed below the length it was made with (decided when both are the same value or constants). G4 every constant index or constant slice bound on a slice is dominated by a length test, long enough by construction, or rests on a checked invariant of the decoder; G9 in the start-code scanners `for i < len(s)-k`, every element i+c of s that is read (directly or through a variable set to i+c) has c <= k or its own test against the length; G10 a loop cursor advanced by an untrusted length is wider than that length (no wrap-around); G11 in a counted loop, an element s[cursor+c] addressed through a second loop variable advanced by constants is read only after a test in the same iteration that len(s) >= cursor+k with k > c, or under a test before the loop that is linear in the loop bound and covers the last iteration (closed form of the cursor); G8 an untrusted value used as an index is compared with the length of the slice first (or has too few bits to exceed a fixed table); G5 every integer division by a non-constant is dominated by a non-zero test (through unexported helpers: at every call site). Does not decide computed indices of the NAL walkers (value-range reasoning), nor time constants."
+		"G3 a slice made in a function and indexed there by a counter is indexed below the length it was made with (decided when both are the same value or constants). G4 every constant index or constant slice bound on a slice is dominated by a length test, long enough by construction, or rests on a checked invariant of the decoder; G9 in the start-code scanners `for i < len(s)-k`, every element i+c of s that is read (directly or through a variable set to i+c) has c <= k or its own test against the length; G10 a loop cursor advanced by an untrusted length is wider than that length (no wrap-around); G11 in a counted loop, an element s[cursor+c] addressed through a second loop variable advanced by constants is read only after a test in the same iteration that len(s) >= cursor+k with k > c, or under a test before the loop that is linear in the loop bound and covers the last iteration (closed form of the cursor); G-NILMAP no assignment m[k] = v to a map that may still be the nil zero value of its variable on some path; G8 an untrusted value used as an index is compared with the length of the slice first (or has too few bits to exceed a fixed table); G5 every integer division by a non-constant is dominated by a non-zero test (through unexported helpers: at every call site). Does not decide computed indices of the NAL walkers (value-range reasoning), nor time constants."
 	r.Assume("taint is flow-insensitive on struct fields and does not flow through slice elements; a guard is any dominating comparison sharing a taint root")
 	entries := entriesC16(c)
 	scope, _ := scopeFrom(c, entries)
@@ -27,6 +33,10 @@ func checkC16(c *Ctx, r *Report) {
 	ruleG10(c, r, scope)
 	requireFixture(r, "G10", "walkWrong", func(fc *Ctx, s *Report) { ruleG10(fc, s, fixtureAllFuncs(fc)) })
 	ruleG5(c, r, scope, nil)
+	if n := ruleNilMapUpdate(c, r, func(f *ssa.Function) bool { return scope[f] }); n < 2 {
+		r.Undecided("G-NILMAP", "scope", "", fmt.Sprintf("only %d map updates found in the codec helpers", n))
+	}
+	requireFixture(r, "G-NILMAP", "nilMapUpdate", func(fc *Ctx, s *Report) { ruleNilMapUpdate(fc, s, nil) })
 	if n := ruleG11(c, r, scope); n < 3 {
 		r.Undecided("G11", "scope", "", "cursor walks (ParseCEA608) not found")
 	}
